@@ -132,6 +132,31 @@ def _view_goals(c, it, o, g, tag, ext=False):
         if ok:
             goals.append(Goal("[%s] big_H_no_ext_int == user columns of big_H" % tag, sym.SBool(z3.And(
                 [_ceq(b2[i, j], bigH[i, j]) for i in range(b2.shape[0]) for j in range(b2.shape[1])]))))
+        # the remaining views of the ext-int class: per-receiver rows with / without the external interferers' columns, H without them
+        conj, shapes_ok = [], True
+        Hn = it.getattr(o, "H_no_ext_int")
+        for k in range(K):
+            full = np.asarray(it.call(it.getattr(o, "get_Hk_with_ext_int"), [k]), dtype=object)
+            part = np.asarray(it.call(it.getattr(o, "get_Hk_without_ext_int"), [k]), dtype=object)
+            if full.shape != (int(g.Nr[k]), int(cumt[-1])) or part.shape != (int(g.Nr[k]), nt_users) or np.shape(Hn) != (K, K):
+                shapes_ok = False
+                continue
+            for i in range(full.shape[0]):
+                for j in range(full.shape[1]):
+                    conj.append(_ceq(full[i, j], bigH[cumr[k] + i, j]))
+                    if j < nt_users:
+                        conj.append(_ceq(part[i, j], bigH[cumr[k] + i, j]))
+            for l in range(K):
+                blk = np.asarray(Hn[k, l], dtype=object)
+                if blk.shape != (int(g.Nr[k]), int(g.Nt[l])):
+                    shapes_ok = False
+                    continue
+                for i in range(blk.shape[0]):
+                    for j in range(blk.shape[1]):
+                        conj.append(_ceq(blk[i, j], bigH[cumr[k] + i, cumt[l] + j]))
+        goals.append(Goal("[%s] get_Hk_with_ext_int / get_Hk_without_ext_int / H_no_ext_int shapes" % tag, shapes_ok))
+        goals.append(Goal("[%s] get_Hk_with_ext_int / get_Hk_without_ext_int / H_no_ext_int are the corresponding blocks of big_H" % tag,
+                          sym.SBool(z3.And(conj)) if conj else True))
     return goals
 
 
